@@ -1,21 +1,35 @@
 """C33  Translation blocks render like their source text and are fully extractable.
 
-Mechanism contracts on jinja2.ext (real source, symbolic inputs) + bounded stand-ins (contracts/c33_native.py):
+Mechanism contracts on jinja2.ext (real source, symbolic inputs) + bounded stand-ins (contracts/c33_native.py).
 
-  C33.parse_block   InternationalizationExtension._parse_block over a token script of up to 6 tokens whose types and values
-                    are symbolic: returns the referenced names in order and the block text with `%` doubled and every
-                    `{{ name }}` replaced by `%(name)s`, stops at `endtrans` / (when allowed) `pluralize`, and every other
-                    shape (nested tag, second pluralize, expression in a variable tag, end of template) is a
-                    TemplateSyntaxError.
-  C33.make_node     _make_node with symbolic flags: callee name by (context?, plural?), constant arguments in order,
-                    keywords (new style) / MarkSafeIfAutoescape + `% {vars}` (old style), `%%` un-doubled exactly when no
-                    formatting step is applied.
-  C33.parse.*       InternationalizationExtension.parse over scripted tag heads (symbolic names): count expression
-                    (C33.plural), trimming (C33.trim), context string, variables handed to _make_node, error cases.
-  C33.extract.*     extract_from_ast on call nodes of bounded arity with symbolic argument shapes, and composed with the
-                    node built by the real _make_node (C33.extract.covers).
-  C33.newstyle.*    the four wrapper closures of _make_new_*gettext.
-  C33.install.*     _install_callables / _install / _install_null / _uninstall.
+  C33.parse_block            InternationalizationExtension._parse_block over a token script of up to 8 tokens (thorough: 10)
+                             whose types and values are symbolic: returns the referenced names in order and the block text
+                             with `%` doubled and every `{{ name }}` replaced by `%(name)s`, stops before the name token of
+                             `endtrans` / (when allowed) `pluralize`; every other shape (nested or unknown tag, second
+                             pluralize, expression in a variable tag, end of template) is a TemplateSyntaxError.
+  C33.parse_block.inductive  the same, unbounded: the loop is cut at an invariant (one generic iteration from an arbitrary
+                             accumulated text / name list); .buf_usage is the table obligation behind the list abstraction.
+  C33.make_node              _make_node with symbolic flags newstyle / vars_referenced / num_called_num and symbolic texts, for
+                             every (plural?, context?) and six variable shapes: callee gettext/ngettext/pgettext/npgettext,
+                             constant arguments (context, singular, plural) in that order then the count expression; new
+                             style: variables as keywords (minus `num` when it is the count); old style:
+                             MarkSafeIfAutoescape, `% {vars}`; `%%` is un-doubled exactly when no formatting step follows.
+  C33.parse[...]             InternationalizationExtension.parse over scripted tag heads with symbolic names:
+                             .meaning = count expression (C33.plural: first variable / named pluralize variable / first
+                             referenced name), trimming (C33.trim: trimmed / notrimmed / policy ext.i18n.trimmed), context
+                             string, the variables map, the temporary for a call-valued count, line number, error cases;
+                             .make_node_requires = the preconditions C33.make_node assumes.
+  C33.extract[...]           extract_from_ast on call nodes of bounded arity with symbolic strings, names and line numbers.
+  C33.extract.covers[...]    real _make_node + real extract_from_ast: exactly the constant strings the call passes at run
+                             time are reported, under the callee's name which is one of GETTEXT_FUNCTIONS.
+  C33.newstyle.*             the four wrapper closures of _make_new_*gettext (translation function called with the given
+                             strings, Markup iff autoescape, `% variables` with num / context defaulted).
+  C33.install.*              _install_callables / _install / _install_null / _uninstall.
+  C33.bounded.* , C33.babel_extract.options     see contracts/c33_native.py.
+
+Known finding rediscovered here (not in DESIGN section 7): old-style gettext, variables bound in the tag but none referenced
+in the body: the text is un-doubled although `% {vars}` is still applied (known_findings.d/c33.json).
+F21 (set iteration order of the free names, owned by C30) is outside this module: the variables are compared as a map.
 """
 from __future__ import annotations
 
@@ -187,7 +201,7 @@ def make_ext(st, env_fields=None, lazy=None):
 # ------------------------------------------------------------------------------------------------
 # C33.parse_block
 # ------------------------------------------------------------------------------------------------
-N_TOKENS = 6
+N_TOKENS = 8
 
 
 def parse_block_spec(toks, allow_pluralize):
@@ -240,7 +254,8 @@ class ParseBlock(HintVC):
     def __init__(self, allow_pluralize, n_tokens=N_TOKENS):
         self.allow = allow_pluralize
         self.n_tokens = n_tokens
-        VC.__init__(self, PROP, f"C33.parse_block[allow_pluralize={allow_pluralize}]")
+        VC.__init__(self, PROP, f"C33.parse_block[allow_pluralize={allow_pluralize}]" + ("" if n_tokens == N_TOKENS else f"[{n_tokens} tokens]"))
+        self.thorough_only = n_tokens > N_TOKENS
         self.bound_text = f"token scripts of up to {n_tokens} tokens (types and values symbolic) followed by the end of the template"
         self.world = None
 
@@ -308,6 +323,161 @@ class ParseBlock(HintVC):
     def finding_key(self, res):
         w = res.witness or {}
         return "tokens:" + ",".join(t for t, _ in w.get("tokens", []))
+
+
+class ParseBlockInductive(HintVC):
+    """Unbounded form of C33.parse_block: the `while True` loop of the real _parse_block is cut at an invariant.
+    Generic loop head: `buf` joined is an arbitrary string B, `referenced` an arbitrary sequence R (what the statement's
+    fold over the tokens consumed so far has produced), the stream stands before an arbitrary window of tokens whose first
+    one the lexer can produce outside a tag.  One iteration from there either
+      * consumes one data token and appends its value with `%` doubled,
+      * consumes `{{ name }}` and appends `%(name)s` to the text and the name to R,
+      * returns (R, B) before the name token of `endtrans` / an allowed `pluralize`, or
+      * fails with a TemplateSyntaxError - exactly in the remaining cases.
+    By induction over the iterations (base: both empty) the result is the fold of these steps over the whole block.
+    `buf` is represented by its join (the only uses of `buf` are append and the final concat: table obligation)."""
+    prop = PROP
+    target = "jinja2.ext:InternationalizationExtension._parse_block"
+    timeout_quick = 20000
+    W = 4
+
+    def __init__(self, allow_pluralize):
+        self.allow = allow_pluralize
+        VC.__init__(self, PROP, f"C33.parse_block.inductive[allow_pluralize={allow_pluralize}]")
+        self.world = None
+
+    def configure(self, I):
+        from pyvc.stmts import LoopSpec
+        CP.install(I, lambda: self.world, summarise_loops=False)
+        c = self
+
+        def heap(st, local):
+            st.ghost = dict(st.ghost)
+            st.ghost["c33_phase"] = "generic"
+            hs = st.get(c.world.stream)
+            hs.fields["_idx"] = 0
+            hs.fields["current"] = c.script.tok(0)
+            hb = st.get(local["buf"])
+            hb.items, hb.arr, hb.n = [c.B], None, None
+            hr = st.get(local["referenced"])
+            hr.items, hr.arr, hr.n, hr.k = None, c.R_arr, c.R_n, "str"
+
+        def inv(ctx):
+            st = ctx.st
+            hs = st.get(c.world.stream)
+            idx = hs.fields["_idx"]
+            cur = st.get(hs.fields["current"]).fields
+            facts = [CP.type_in(sv(cur["type"]), CP.OUTSIDE)]
+            hb, hr = st.get(ctx.local("buf")), st.get(ctx.local("referenced"))
+            if st.ghost.get("c33_phase") != "generic":
+                return facts + [z3.BoolVal(hb.concrete and hb.items == []), z3.BoolVal(hr.concrete and hr.items == [])]
+            if idx == 0:
+                return facts
+            joined = cat([sv(x) for x in hb.items]) if hb.concrete else None
+            data, varok, _closing = c.step_conds()
+            if hr.concrete or joined is None:
+                return facts + [z3.BoolVal(False)]
+            same_r = z3.And(hr.n == c.R_n, hr.arr == c.R_arr)
+            more_r = z3.And(hr.n == c.R_n + 1, hr.arr == z3.Store(c.R_arr, c.R_n, c.values[1].t))
+            step = z3.And(
+                z3.Implies(data, z3.And(z3.BoolVal(idx == 1), joined == z3.Concat(c.B.t, dbl(c.values[0].t)), same_r)),
+                z3.Implies(varok, z3.And(z3.BoolVal(idx == 3), joined == z3.Concat(c.B.t, S("%("), c.values[1].t, S(")s")), more_r)),
+                z3.Or(data, varok))
+            return facts + [step]
+
+        I.loops[("InternationalizationExtension._parse_block", 0)] = LoopSpec(inv, havoc={"name": "str", "block_name": "str"}, heap=heap, name="block_loop")
+
+    def step_conds(self):
+        t, v = [x.t for x in self.types], [x.t for x in self.values]
+        data = t[0] == S("data")
+        varok = z3.And(t[0] == S("variable_begin"), t[1] == S("name"), t[2] == S("variable_end"))
+        closing = z3.And(t[0] == S("block_begin"), t[1] == S("name"),
+                         z3.Or(v[1] == S("endtrans"), z3.And(v[1] == S("pluralize"), z3.BoolVal(bool(self.allow)))))
+        return data, varok, closing
+
+    def setup(self, I, st):
+        self.world = w = CP.World(st)
+        self.types = [sym(f"wtype{i}", "str") for i in range(self.W)]
+        self.values = [sym(f"wvalue{i}", "str") for i in range(self.W)]
+        prev = S("block_end")  # at every loop head the previous token is block_end, data or variable_end
+        for t in self.types:
+            st.assume(z3.Implies(CP.type_in(prev, CP.AFTER_OUTSIDE), CP.type_in(t.t, CP.OUTSIDE)))
+            prev = t.t
+        self.script = Script(st, list(zip(self.types, self.values)), w)
+        self.script.install(I)
+        self.ext, self.env = make_ext(st)
+        self.B = sym("text_so_far", "str")
+        self.R_arr = z3.Const("names_so_far", z3.ArraySort(z3.IntSort(), z3.StringSort()))
+        self.R_n = z3.Int("n_names_so_far")
+        st.assume(self.R_n >= 0)
+        return [self.ext, w.parser, self.allow], {}
+
+    def p_exit(self, pre, out):
+        data, varok, closing = self.step_conds()
+        if out.raised:
+            return z3.And(z3.BoolVal(is_tse(out)), z3.Not(z3.Or(data, varok, closing)))
+        st = out.st
+        v = out.value
+        if not (isinstance(v, tuple) and len(v) == 2 and isinstance(v[0], Ref) and isinstance(st.get(v[0]), HList) and not st.get(v[0]).concrete):
+            return False
+        hr = st.get(v[0])
+        if self.script.idx(st) != 1:
+            return False
+        try:
+            text_ok = sv(v[1]) == self.B.t
+        except Exception:
+            return False
+        return z3.And(closing, text_ok, hr.n == self.R_n, hr.arr == self.R_arr)
+
+    posts = [("exit", p_exit)]
+
+    def hints(self):
+        return [[self.values[0].t == S(c), self.B.t == S("")] for c in ("%", "a%%b")]
+
+    def concretize(self, model, pre, out):
+        toks = [[model_value(model, t.t), model_value(model, v.t)] for t, v in zip(self.types, self.values)]
+        return {"tokens": toks, "allow_pluralize": self.allow, "text_so_far": model_value(model, self.B.t)}
+
+    def replay(self, w):
+        return replay_parse_block(w)
+
+    def finding_key(self, res):
+        w = res.witness or {}
+        return "tokens:" + ",".join(t for t, _ in w.get("tokens", []))
+
+
+def parse_block_buf_usage(task, tier, seed):
+    """table obligation behind the abstraction of `buf` by its join: in the live source of _parse_block `buf` is only
+    created empty, appended to and joined; `referenced` only created empty, appended to and returned; concat is "".join"""
+    import ast as _a
+    from pyvc import extract as X
+    node, _mod = X.function_ast(E.InternationalizationExtension._parse_block)
+    bad = []
+    parents = {}
+    for n in _a.walk(node):
+        for ch in _a.iter_child_nodes(n):
+            parents[ch] = n
+    for n in _a.walk(node):
+        if isinstance(n, _a.Name) and n.id in ("buf", "referenced"):
+            p = parents.get(n)
+            ok = False
+            if isinstance(n.ctx, _a.Store) and isinstance(p, _a.Assign) and isinstance(p.value, _a.List) and not p.value.elts:
+                ok = True
+            elif isinstance(p, _a.Attribute) and p.attr == "append" and isinstance(parents.get(p), _a.Call) and parents[p].func is p:
+                ok = True
+            elif n.id == "buf" and isinstance(p, _a.Call) and isinstance(p.func, _a.Name) and p.func.id == "concat" and p.args == [n]:
+                ok = True
+            elif n.id == "referenced" and isinstance(p, _a.Tuple) and isinstance(parents.get(p), _a.Return):
+                ok = True
+            if not ok:
+                bad.append(f"{n.id} at line {n.lineno}")
+    import jinja2.utils as U
+    join_ok = getattr(U.concat, "__self__", None) == "" and getattr(U.concat, "__name__", "") == "join" and E.concat is U.concat
+    if not join_ok:
+        bad.append("concat is not ''.join")
+    return [Res("C33.parse_block.inductive.buf_usage", "discharged" if not bad else "refuted", "table", 0,
+                "buf / referenced are only created empty, appended to, joined / returned" if not bad else "other use of " + ", ".join(bad), "table",
+                None if not bad else {"uses": bad})]
 
 
 def ref_parse_block(tokens, allow_pluralize):
@@ -595,8 +765,33 @@ def replay_make_node(w):
     calls = list(node.find_all(N.Call))
     if len(calls) != 1 or not isinstance(calls[0].node, N.Name) or calls[0].node.name != gettext_name(w["context"] is not None, has_plural):
         return True, f"{desc} -> {node!r}: the callee is not {gettext_name(w['context'] is not None, has_plural)}"
-    # render it
-    for count in ((1, 2) if has_plural else (1,)):
+    # documented shape of the old-style expression: the call is marked safe (when autoescaping), then formatted
+    top = node.nodes[0]
+    if not w["newstyle"]:
+        inner = top.left if isinstance(top, N.Mod) else top
+        if not (isinstance(inner, N.MarkSafeIfAutoescape) and isinstance(inner.expr, N.Call)):
+            return True, f"{desc} -> {node!r}: the old-style call is not wrapped in MarkSafeIfAutoescape"
+        if isinstance(top, N.Mod):
+            pk = [(p.key.value if isinstance(p.key, N.Const) else None) for p in getattr(top.right, "items", [])]
+            if not isinstance(top.right, N.Dict) or pk != keys:
+                return True, f"{desc} -> {node!r}: formatted with {pk!r}, the variables are {keys!r}"
+    elif not isinstance(top, N.Call):
+        return True, f"{desc} -> {node!r}: the new-style expression is not the plain call"
+    consts = [a.value for a in calls[0].args if isinstance(a, N.Const)]
+    want_consts = ([w["context"]] if w["context"] is not None else []) + [None] + ([None] if has_plural else [])
+    if len(consts) != len(want_consts) or (w["context"] is not None and consts[0] != w["context"]):
+        return True, f"{desc} -> {node!r}: constant arguments {consts!r} (context first, then singular, then plural expected)"
+    if has_plural and (not calls[0].args or calls[0].args[-1] is not plural_expr):
+        return True, f"{desc} -> {node!r}: the count expression is not the last argument"
+    # render it (as is, and with markup characters appended to the texts; autoescape off and on)
+    for count, extra, autoescape in [(c, x, ae) for c in ((1, 2) if has_plural else (1,)) for x in ("", " <&>") for ae in (False, True)]:
+        if extra:
+            sing, plur = w["singular"] + extra, (w["plural"] + extra if has_plural else None)
+            node = ext._make_node(sing, plur, w["context"], dict(variables), plural_expr, w["vars_referenced"], w["num_called_num"])
+        else:
+            sing, plur = w["singular"], w["plural"]
+            node = ext._make_node(sing, plur, w["context"], dict(variables), plural_expr, w["vars_referenced"], w["num_called_num"])
+        env.autoescape = autoescape
         rec = NAT._Recorder()
         env.install_gettext_callables(rec.gettext, rec.ngettext, newstyle=bool(w["newstyle"]), pgettext=rec.pgettext, npgettext=rec.npgettext)
         tree = N.Template([node], lineno=1)
@@ -615,7 +810,7 @@ def replay_make_node(w):
             vals.setdefault("context", w["context"])
         form = sing if (not has_plural or count == 1) else plur
         try:
-            want = form % vals  # what the doubled message denotes
+            want = str((markupsafe.Markup(form) if autoescape else form) % vals)  # what the doubled message denotes
         except Exception:
             return False, f"{desc}: the witness text {form!r} is not a doubled message (outside the precondition)"
         try:
@@ -624,7 +819,7 @@ def replay_make_node(w):
         except Exception as ex:  # noqa
             return True, f"{desc}: rendering the node raised {type(ex).__name__}: {ex}; the message {form!r} denotes {want!r}"
         if out != want:
-            return True, f"{desc}: the node renders {out!r}; the message {form!r} denotes {want!r}"
+            return True, f"{desc} autoescape={autoescape}: the node renders {out!r}; the message {form!r} denotes {want!r}"
         msgs = {(f, NAT.norm_extracted(m)) for (_l, f, m) in E.extract_from_ast(tree)}
         for c in rec.calls:
             if c not in msgs:
@@ -1203,6 +1398,15 @@ def replay_parse(w):
                 parg = names[i]
         src += "{% pluralize " + (parg + " " if w["tail"] == "B" else "") + "%}" + " \n many " + " ".join("{{ %s }}" % r for r in refs[1])
     src += "{% endtrans %}"
+    # the variable the documentation designates as the count gets the value `count`, every other variable 5
+    bound_items = [it for it in HEADS[w["head"]] if it[0] in ("var", "bind")]
+    bound_names = [names[it[1]] for it in bound_items]
+    if plural and w["tail"] == "B":
+        cv = parg
+    elif bound_names:
+        cv = bound_names[0]
+    else:
+        cv = refs[0][0] if refs[0] else None
     out = {}
     for count in (1, 2):
         env = jinja2.Environment(extensions=["jinja2.ext.i18n"])
@@ -1217,43 +1421,46 @@ def replay_parse(w):
         except Exception as ex:  # noqa
             return True, f"{src!r}: {type(ex).__name__}: {ex}"
         calls = []
+        val = lambda nm: count if nm == cv else 5  # noqa: E731
 
         def f():
             calls.append(1)
-            return count
-        ctx = {"f": f, "x0": count, "x1": "X1", "x2": "X2"}
+            return val(names[0])
+        ctx = {"f": f}
+        for it in bound_items:
+            if it[0] == "bind":
+                ctx[f"x{it[1]}"] = val(names[it[1]])
         for nm in set(names + [r for rs in refs for r in rs]):
-            ctx.setdefault(nm, count)
+            ctx.setdefault(nm, val(nm) if nm not in [names[it[1]] for it in bound_items if it[0] == "bind"] else "WRONG-SCOPE")
         try:
             out[count] = ("text", t.render(ctx), list(rec.calls), len(calls))
         except Exception as ex:  # noqa
             return True, f"{src!r} rendered with count {count}: {type(ex).__name__}: {ex}"
-    # oracle: first bound / named / first referenced variable decides; every variable equals `count` here except x1/x2
-    detail = f"{src!r}: {out!r}"
+    detail = f"{src!r} (count variable {cv!r}): {out!r}"
+    well_formed = w["head"] not in ("bind_nocomma_bind",)
+    expect_error = None
+    if well_formed and len(set(bound_names)) < len(bound_names):
+        expect_error = "TemplateAssertionError"  # a variable defined twice
+    elif well_formed and plural and w["tail"] == "B" and parg not in bound_names:
+        expect_error = "TemplateAssertionError"  # unknown variable for pluralization
+    elif well_formed and plural and not bound_names and not refs[0]:
+        expect_error = "TemplateSyntaxError"  # pluralize without variables
     for count, o in out.items():
+        if expect_error and o != ("error", expect_error):
+            return True, detail + f": {expect_error} expected"
+        if well_formed and not expect_error and o[0] == "error":
+            return True, detail + ": a well-formed trans block was rejected"
         if o[0] == "error":
             continue
         text = o[1]
         if plural:
-            bound = [it for it in HEADS[w["head"]] if it[0] in ("var", "bind")]
-            cvar = None
-            if w["tail"] == "B":
-                cvar = "arg"
-            elif bound:
-                cvar = bound[0]
-            # the deciding value is `count` unless the deciding variable is bound to x1 / x2 (a string -> plural)
-            decides = count
-            if cvar not in (None, "arg") and cvar[0] == "bind" and cvar[1] != 0:
-                decides = "X"
-            if cvar == "arg":
-                for it in bound:
-                    if names[it[1]] == parg and it[0] == "bind" and it[1] != 0:
-                        decides = "X"
-            want_form = "one" if decides == 1 else "many"
+            want_form = "one" if count == 1 else "many"
             if want_form not in text or ("many" if want_form == "one" else "one") in text:
-                return True, detail + f": with the count variable = {decides!r} the {want_form!r} form is expected"
+                return True, detail + f": with {cv} = {count} the {want_form!r} form is expected"
             if o[3] > 1:
                 return True, detail + ": the count expression was evaluated more than once"
+        if "WRONG-SCOPE" in text:
+            return True, detail + ": a variable bound in the tag was looked up in the context"
         trimmed = {"trimmed": True, "notrimmed": False}[w["modifier"]] if any(it[0] == "mod" for it in HEADS[w["head"]]) else bool(w["policy"])
         if trimmed != (not text.startswith(" \n")):
             return True, detail + f": trimming in force = {trimmed}"
@@ -1582,7 +1789,33 @@ class ExtractCovers(HintVC):
         return w
 
     def replay(self, w):
-        return replay_make_node(w)
+        return replay_covers(w)
+
+
+def replay_covers(w):
+    """real _make_node, real extract_from_ast; documented output computed from the call node itself"""
+    env = jinja2.Environment(extensions=["jinja2.ext.i18n"])
+    env.newstyle_gettext = bool(w["newstyle"])
+    ext = env.extensions["jinja2.ext.InternationalizationExtension"]
+    keys = list(w["keys"])
+    variables = {k: N.Name("x_" + k, "load") for k in keys}
+    plural_expr = N.Name("count", "load") if w["plural"] is not None else None
+    node = ext._make_node(w["singular"], w["plural"], w["context"], dict(variables), plural_expr, w["vars_referenced"], w["num_called_num"])
+    node.set_lineno(7)
+    tree = N.Template([node], lineno=1)
+    calls = list(node.find_all(N.Call))
+    if len(calls) != 1 or not isinstance(calls[0].node, N.Name):
+        return True, f"_make_node -> {node!r}: not exactly one call of a named function"
+    c = calls[0]
+    strings = [(a.value if isinstance(a, N.Const) and isinstance(a.value, str) else None) for a in c.args] + [None] * len(c.kwargs)
+    if w["babel_style"]:
+        want = [(7, c.node.name, strings[0] if len(strings) == 1 else tuple(strings))]
+    else:
+        want = [(7, c.node.name, tuple(x for x in strings if x is not None))]
+    got = list(E.extract_from_ast(tree, babel_style=w["babel_style"]))
+    passed = ([w["context"]] if w["context"] is not None else []) + [c.args[1 if w["context"] is not None else 0].value] + ([c.args[2 if w["context"] is not None else 1].value] if w["plural"] is not None else [])
+    bad = got != want or [x for x in strings if x is not None] != passed or c.node.name not in E.GETTEXT_FUNCTIONS
+    return bad, f"extract_from_ast(babel_style={w['babel_style']}) over the node of _make_node({w['singular']!r}, {w['plural']!r}, {w['context']!r}, vars={keys}) newstyle={w['newstyle']}: real={got!r} documented={want!r}"
 
 
 def extract_tasks():
@@ -2015,7 +2248,8 @@ def runtime_tasks():
     return [MultiTask("C33.newstyle", ns), MultiTask("C33.install", inst)]
 
 
-TASKS = [ParseBlock(True), ParseBlock(False)] + make_node_tasks() + parse_tasks() + extract_tasks() + runtime_tasks()
+TASKS = [ParseBlock(True), ParseBlock(False), ParseBlock(True, 10), ParseBlock(False, 10), ParseBlockInductive(True), ParseBlockInductive(False),
+         FnTask(PROP, "C33.parse_block.inductive.buf_usage", parse_block_buf_usage, "table", lambda w: (True, str(w)))] + make_node_tasks() + parse_tasks() + extract_tasks() + runtime_tasks()
 TASKS += NAT.native_tasks()
 
 META = {
